@@ -863,6 +863,71 @@ func ruleNullSpell(c *Ctx) {
 		l.add("R-NULLSPELL", "v5", "anchor looked-up node", b.rel(fn.Pos()), Undecided, "the test handler does not look the target up with container.get", false)
 		return
 	}
+	// the node comparison itself: no `not equal` verdict from the nil-ness of member / element nodes
+	for _, cmp := range b.srcFuncs(b.Lib) {
+		if recvTypeName(cmp) != "lazyNode" || cmp.Signature.Params().Len() != 1 || !isPtrToNamed(cmp.Signature.Params().At(0).Type(), "lazyNode") {
+			continue
+		}
+		if res := cmp.Signature.Results(); res.Len() != 1 || typeShort(res.At(0).Type()) != "bool" {
+			continue
+		}
+		key := fmt.Sprintf("%s: no `different` verdict is taken from the nil-ness of member or element nodes", fname(cmp))
+		bad := ""
+		isMemberNode := func(v ssa.Value) bool {
+			switch x := v.(type) {
+			case *ssa.Extract:
+				switch x.Tuple.(type) {
+				case *ssa.Next, *ssa.Lookup:
+					return isPtrToNamed(x.Type(), "lazyNode")
+				}
+			case *ssa.Lookup:
+				return isPtrToNamed(x.Type(), "lazyNode")
+			case *ssa.UnOp:
+				if _, ok := x.X.(*ssa.IndexAddr); ok {
+					return isPtrToNamed(x.Type(), "lazyNode")
+				}
+			}
+			return false
+		}
+		var mentionsMemberNil func(v ssa.Value, d int) bool
+		mentionsMemberNil = func(v ssa.Value, d int) bool {
+			if v == nil || d > 4 {
+				return false
+			}
+			if x, _, ok := nilTestOfCond(v); ok && isMemberNode(x) {
+				return true
+			}
+			switch x := v.(type) {
+			case *ssa.BinOp:
+				return mentionsMemberNil(x.X, d+1) || mentionsMemberNil(x.Y, d+1)
+			case *ssa.UnOp:
+				return mentionsMemberNil(x.X, d+1)
+			case *ssa.Phi:
+				for _, e := range x.Edges {
+					if mentionsMemberNil(e, d+1) {
+						return true
+					}
+				}
+			}
+			return false
+		}
+		for _, r := range liveReturns(cmp) {
+			k, isK := boolConst(retVal(r, 0))
+			if !isK || k {
+				continue
+			}
+			for _, e := range b.controlDeps(r.Block()) {
+				if iff, ok := e.From.Instrs[len(e.From.Instrs)-1].(*ssa.If); ok && mentionsMemberNil(iff.Cond, 0) {
+					bad = "`return false` at " + b.posOf(r) + " is decided by whether member/element nodes are nil: a null stored by add/replace (non-nil node with text `null`) then differs from a decoded null (nil node), so `add /o/a null` followed by `test /o {\"a\":null}` fails"
+				}
+			}
+		}
+		if bad != "" {
+			l.add("R-NULLSPELL", "v5", key, b.rel(cmp.Pos()), Violated, bad, true)
+		} else {
+			l.add("R-NULLSPELL", "v5", key, b.rel(cmp.Pos()), Discharged, "member and element nodes are compared through the comparison method, whose prologue treats both spellings of null alike", true)
+		}
+	}
 	tests := nilTests(fn, val)
 	if len(tests) == 0 {
 		l.add("R-NULLSPELL", "v5", "test handler: the looked-up node is compared with nil", b.rel(fn.Pos()), Discharged, "no nil test on the looked-up node: every verdict goes through the comparison methods, which handle both spellings", true)
